@@ -63,11 +63,18 @@ pub fn predict(buf: &[u8], pk: &MPkt, n_sets: usize) -> Option<(Pred, BTreeSet<&
     };
     let mut classes = BTreeSet::new();
     let mut out = buf[pk.start..pk.start + hdr_len].to_vec();
-    if n_sets < sets.len() {
-        classes.insert("sets-after-undecodable-set-dropped");
-    }
+    let _ = n_sets;
     let mut fails = false;
-    for s in sets.iter().take(n_sets) {
+    for s in sets.iter() {
+        if s.tainted {
+            return None;
+        }
+        if matches!(s.kind, MSetKind::UnknownTpl { .. }) {
+            // C07: a set whose template this parser does not hold is omitted from the message,
+            // so it cannot be re-exported either
+            classes.insert("undecodable-set-omitted");
+            continue;
+        }
         out.extend_from_slice(&buf[s.off..s.off + 4]);
         let body = &buf[s.off + 4..s.off + usize::from(s.len)];
         let _ = body;
@@ -88,7 +95,7 @@ pub fn predict(buf: &[u8], pk: &MPkt, n_sets: usize) -> Option<(Pred, BTreeSet<&
                 }
                 out.extend_from_slice(pad);
             }
-            MSetKind::UnknownTpl { .. } => return None,
+            MSetKind::UnknownTpl { .. } => unreachable!(),
         }
     }
     if fails {
